@@ -128,6 +128,8 @@ void Kernel::run_pending_signals() {
 
 void Kernel::enter(const char* what) {
   if (!sched.current()) return;
+  static int ktrace = getenv("ZSIM_KTRACE") ? 1 : 0;
+  if (ktrace) fprintf(stderr, "    k: %s %s t=%lld\n", sched.task_name(sched.current()), what, (long long)now_ns());
   if (yield_on_syscall) sched.yield();
   // POSIX cancellation points act on a pending (deferred) cancellation request when they are entered
   if (what[0] == '!') cancel_point();
@@ -623,6 +625,7 @@ ssize_t __wrap_write(int fd, const void* b, size_t n) {
 int __wrap_close(int fd) {
   if (!is_simfd(fd)) { if (in_sim_range(fd)) { K->count("close_ebadf"); errno = EBADF; return -1; } return __real_close(fd); }
   simk::KScope ks;
+  if (getenv("ZSIM_KTRACE")) fprintf(stderr, "    k: close(%d) kind %d\n", fd, (int)K->get(fd)->kind);
   K->enter("!close");
   return K->sys_close(fd);
 }
